@@ -118,3 +118,8 @@ fn c08_zobrist_algebra() {
     } + if g { 0 } else { 6 };
     assert!(pv(i, p, g) == SQUARE_VALUES[t][i as usize], "C08: piece_value is the table entry of (type, colour, square)");
 }
+
+// (A bounded Kani companion for piece_board_value was attempted three ways -- one changed square with symbolic boards,
+//  <= 3 symbolic toggles, and four concrete capture geometries with symbolic kinds -- and is intractable every time
+//  (18 min + out of memory / 15 min no answer / 30 min timeout): equality of two differently grouped XOR sums over the
+//  768-entry table is a parity problem for the SAT back end.  The Verus unit `pbv` is the only obligation on this function.)
